@@ -322,6 +322,39 @@ fn check_int_literal(text: &str, expected: Option<i64>, rep: &mut Report) {
         }
     }
     rep.sample("intlit", 4, || Obj::new().s("literal", text).s("expected", &format!("{expected:?}")).render());
+    // the same literal as an element: a literal that exceeds int is refused wherever it stands, one that fits keeps its value
+    for (wrap, pick) in [("[1, {}, 2.5]", 1usize), ("({}, \"s\")", 0), ("[[{}]]", 0), ("(1, [2, {}])", 1)] {
+        let nested = wrap.replace("{}", text);
+        for route in ["from_str", "program"] {
+            rep.evaluations += 1;
+            rep.count(&format!("intlit_nested_{route}"));
+            let out: Result<Result<Variable, String>, real::PanicInfo> = if route == "from_str" {
+                real::guarded(|| Variable::from_str(&nested).map_err(|e| real::error_variant(&e)))
+            } else {
+                match real::parse_exec(&nested, false) {
+                    Outcome::Value(v) => Ok(Ok(v)),
+                    Outcome::Rejected(e, _) => Ok(Err(e)),
+                    Outcome::ExecErr(_, e) => Ok(Err(format!("exec:{e}"))),
+                    Outcome::Panic(p) => Err(p),
+                }
+            };
+            let key = format!("c20:intlit-nested:{route}:{radix}");
+            let shown = |v: &Variable| canon(v);
+            match (expected, out) {
+                (_, Err(p)) => rep.violation(&format!("{key}:panic:{}", p.site()), &format!("{nested}: panicked: {}", p.short_msg()), "c20-intlit", text),
+                (None, Ok(Err(v))) if v == "IntegerOverflow" => {}
+                (None, Ok(other)) => rep.violation(&format!("{key}:overflow-not-rejected"), &format!("{nested} holds a literal that exceeds int and must be rejected as too big, got {:?}", other.as_ref().map(shown)), "c20-intlit", text),
+                (Some(e), Ok(Ok(v))) => {
+                    let want = wrap.replace("{}", &e.to_string()).replace("2.5", "2.5f");
+                    let _ = pick;
+                    if canon(&v).replace(' ', "") != want.replace(' ', "") {
+                        rep.violation(&format!("{key}:wrong-value"), &format!("{nested} should denote {want}, got {}", canon(&v)), "c20-intlit", text);
+                    }
+                }
+                (Some(_), Ok(Err(v))) => rep.violation(&format!("{key}:rejected"), &format!("{nested} is rejected ({v}) although its literal fits an int"), "c20-intlit", text),
+            }
+        }
+    }
     // the same spelling behind a minus sign: a value literal of its own for `Variable::from_str` (down to MIN_INT),
     // unary minus applied to the literal in a program
     let cleaned: String = text.chars().filter(|c| *c != '_').collect();
@@ -397,6 +430,14 @@ pub fn run(cfg: &Cfg, rep: &mut Report) {
         }
         for v in &fixed {
             check_value(v, rep);
+        }
+        // long values: the printed text of a long array / string / nested value reads back (no size threshold)
+        for n in [1_000usize, 1_025, 5_000, 20_000, 30_000, 70_000] {
+            check_value(&Variable::from((0..n as i64).map(Variable::Int).collect::<Vec<_>>()), rep);
+            check_value(&Variable::from((0..n / 2).map(|k| Variable::Tuple(Arc::from([Variable::Int(k as i64), Variable::String(Arc::from("p"))]))).collect::<Vec<_>>()), rep);
+        }
+        for n in [1_000usize, 65_536, 400_000, 1_000_000] {
+            check_value(&Variable::String(Arc::from("é".repeat(n / 2) + &"x".repeat(n / 2))), rep);
         }
         // a backslash (one, two, three) followed by every printable ASCII character, alone and inside text
         for c in (0x20u32..0x7f).filter_map(char::from_u32) {
